@@ -139,3 +139,4 @@ contract(f"{TE}::Terminal._process_local_login", props=["C16"],
                   ("connection_only_on_success", "implies(result is not None, True)")],
          modifies=["heap"], allocates=True)
 inline(f"{B}::UserManager._is_last_admin", f"{B}::UserManager.admins", f"{B}::UserManager.disabled_admins")
+
